@@ -182,16 +182,25 @@ def restrict_rows(level, rows):
 SIGN = {"-": "removed", "+": "added", ">": "moved", " ": "affected"}
 
 
-def read_signed_indent(lines, indent):
-    """lines '<sign> <indent*level><row>' -> nested [(opname,row,children)]"""
+def read_signed_indent(lines, indent, begin=""):
+    """lines '<sign> <indent*level><row>' -> nested [(opname,row,children)]; `begin` is the vendor's block-begin mark
+    that the view appends to rows that have children (RouterOS: '/')"""
     root = []
     stack = [(-1, root)]
+    levels = []
     for ln in lines:
-        sign, rest = ln[0], ln[2:]
+        rest = ln[2:]
         lvl = 0
         while indent and rest.startswith(indent):
             rest = rest[len(indent):]
             lvl += 1
+        levels.append(lvl)
+    for i, ln in enumerate(lines):
+        sign, rest = ln[0], ln[2:]
+        lvl = levels[i]
+        rest = rest[len(indent) * lvl:]
+        if begin and rest.endswith(begin) and i + 1 < len(lines) and levels[i + 1] > lvl:
+            rest = rest[:-len(begin)]
         node = (SIGN[sign], rest, [])
         while stack[-1][0] >= lvl:
             stack.pop()
@@ -290,7 +299,7 @@ def judge(vendor, rbk, top, rules, old, new, tier, report, stats=None):
         if getattr(fmt, "_block_end", ""):
             got = read_signed_brace(lines, fmt._indent, fmt._block_begin, fmt._block_end, fmt._statement_end)
         else:
-            got = read_signed_indent(lines, fmt._indent)
+            got = read_signed_indent(lines, fmt._indent, getattr(fmt, "_block_begin", ""))
         if got != want:
             report(dict(base, kind="render-roundtrip", formatter=v), case, "lines=%r read=%r diff=%r" % (lines, got, want))
         if stats is not None:
